@@ -34,6 +34,10 @@ def growth_configs(quick):
                 for mode in "rw":
                     out.append(S.cfg(mode, [osz] * 1, 0, c, q, -1, "close", 0, 0, rep=count, static=1, bound=0,
                                      horizon=200000000, alloccap=1 << 30, tagN=n))
+                # a consumer that gives up after 5 objects: closing must not decode the rest of the file into memory
+                for ending in ("close", "destroy"):
+                    out.append(S.cfg("r", [osz] * 1, 0, c, q, 5, ending, 0, 0, rep=count, static=1, bound=0,
+                                     horizon=200000000, alloccap=1 << 30, tagN=n))
     return out
 
 
@@ -43,7 +47,7 @@ def growth_post(results):
         if r.get("violation") or r.get("skipped") or r.get("infra") or "peak_heap" not in r:
             continue
         p = r["params"]
-        key = (p["mode"], p["cont"], p["objs"])
+        key = (p["mode"], p["cont"], p["objs"], p.get("early", "-1"), p.get("ending", "close"))
         groups.setdefault(key, []).append((int(p["tagN"]), r))
     viol = []
     for key, lst in groups.items():
@@ -58,9 +62,9 @@ def growth_post(results):
         for n, r in base[1:]:
             for field in ("peak_container_bytes", "peak_heap"):
                 if r[field] > r0[field] + slack:
-                    what = ("%s grows with the number of containers: N=%d -> %d bytes, N=%d -> %d bytes (mode=%s container=%s object=%d)"
-                            % (field, n0, r0[field], n, r[field], key[0], key[1], osz))
-                    viol.append({"key": "growth|%s|%s|%s|%s" % (key[0], key[1], key[2], field), "what": what,
+                    what = ("%s grows with the number of containers: N=%d -> %d bytes, N=%d -> %d bytes (mode=%s container=%s object=%d early=%s ending=%s)"
+                            % (field, n0, r0[field], n, r[field], key[0], key[1], osz, key[3], key[4]))
+                    viol.append({"key": "growth|%s|%s|%s|%s|%s|%s" % (key[0], key[1], key[2], key[3], key[4], field), "what": what,
                                  "replay": {"property": "C12", "harness": "h_session", "variant": "sched", "params": r["params"],
                                             "schedule": [], "kind": "growth", "detail": what}})
                     break
